@@ -102,6 +102,17 @@ class State:
         )
 
 
+def _walk_own(node):
+    """ast.walk that does not descend into nested function / class definitions"""
+    stack = [node]
+    while stack:
+        x = stack.pop()
+        yield x
+        for c in ast.iter_child_nodes(x):
+            if not isinstance(c, (ast.FunctionDef, ast.AsyncFunctionDef, ast.Lambda, ast.ClassDef)):
+                stack.append(c)
+
+
 @dataclass(frozen=True)
 class ListRef:
     id: int
@@ -264,6 +275,18 @@ class Interp:
         if isinstance(e, ast.Lambda):
             f2 = getattr(e, "_func", None)
             return [(st, Bound(f2.qualname, None) if f2 is not None else TOP)]
+        if isinstance(e, ast.Yield) and isinstance(env.get("__yields__"), ListRef):
+            # a generator function is interpreted eagerly: its yields are collected in order (see call_func)
+            outs = []
+            for s1, v in (self.eval(e.value, env, st, func, depth) if e.value is not None else [(st, None)]):
+                if isinstance(v, Raised):
+                    outs.append((s1, v))
+                    continue
+                s2 = s1.copy()
+                yid = env["__yields__"].id
+                s2.lists[yid] = s2.lists.get(yid, ()) + (v,)
+                outs.append((s2, None))
+            return outs
         raise AnalysisError(f"abstract interpreter: unsupported expression `{ast.unparse(e)[:60]}` in {func.qualname}")
 
     def _seq(self, elts, env, st, func, depth, ctor):
@@ -272,6 +295,14 @@ class Interp:
         for x in elts:
             nxt = []
             for s1, acc in outs:
+                if isinstance(x, ast.Starred):
+                    # `(idx, *entry)` with a concrete tuple / list: its items
+                    for s2, v in self._ev(x.value, env, s1, func, depth, raised):
+                        items = self._concrete_items(v, s2)
+                        if items is None:
+                            raise AnalysisError(f"abstract interpreter: starred expression over a non-concrete value at {func.where(x)}")
+                        nxt.append((s2, acc + list(items)))
+                    continue
                 for s2, v in self._ev(x, env, s1, func, depth, raised):
                     nxt.append((s2, acc + [v]))
             outs = nxt
@@ -636,10 +667,20 @@ class Interp:
         for p, d in zip(a.kwonlyargs, a.kw_defaults):
             if p.arg not in env:
                 env[p.arg] = d.value if isinstance(d, ast.Constant) else TOP
+        is_gen = any(isinstance(x, (ast.Yield, ast.YieldFrom)) for st_ in f.body for x in _walk_own(st_))
+        if is_gen:
+            # the generator's values, in order, as a list (finite: loops of the interpreted functions are over concrete
+            # sequences); consumers iterate it like any other concrete sequence
+            self._list_counter += 1
+            st = st.copy()
+            st.lists[self._list_counter] = ()
+            env["__yields__"] = ListRef(self._list_counter)
         outs = []
         for s, flow, val, _env in self.exec_block(f.body, env, st, f, depth):
             if flow == "raise":
                 outs.append((s, Raised(val)))
+            elif is_gen:
+                outs.append((s, env["__yields__"]))
             else:
                 outs.append((s, val if flow == "return" else None))
         return outs
